@@ -612,7 +612,11 @@ pub fn relay_scenario(name: &str, depth: usize, extra: &[Op]) -> Scenario {
 /// replicas), explored to a small depth. Every engine-H property adds these to its own scenarios, so a
 /// state shape introduced for one property is seen by the oracles of all the others.
 pub fn cross_scenarios(thorough: bool) -> Vec<Scenario> {
-    let depth = if thorough { 2 } else { 1 };
+    cross_scenarios_depth(if thorough { 2 } else { 1 })
+}
+
+pub fn cross_scenarios_depth(depth: usize) -> Vec<Scenario> {
+    let depth = std::env::var("MV_CROSS_DEPTH").ok().and_then(|s| s.parse().ok()).unwrap_or(depth);
     let base: Vec<Scenario> = vec![
         pair_conflict_scenario("x-pair-conflict", 2, 3, &[1, 8], depth, &[]),
         pair_conflict_scenario("x-pair-edit-hi-vs-delete", 15, 3, &[9], depth, &[]),
